@@ -3,6 +3,7 @@ package interp
 // Path exploration: stateless re-execution with decision prefixes.
 
 import (
+	"runtime/debug"
 	"fmt"
 	"go/types"
 	"os"
@@ -93,6 +94,7 @@ type pathCtx struct {
 	vars     []*Term
 	inputs   []InputVal
 	nameCnt  map[string]int
+	errText  bool // formatting the text of an error (see concValue)
 	steps    int
 	depth    int
 	reach    map[string]bool
@@ -621,6 +623,9 @@ func (c *pathCtx) concretize1(t *Term) uint64 {
 			continue
 		}
 		if tries >= c.ex.Bounds.ConcretizeCap {
+			if os.Getenv("SYMGO_CAPLOG") != "" {
+				fmt.Fprintf(os.Stderr, "concretize cap on %s\n%s\n", t.String(), debug.Stack())
+			}
 			c.abort("truncated", "concretize cap")
 		}
 		c.ensureModel()
